@@ -122,7 +122,14 @@ func runSolver(ctx context.Context, sp solverSpec, file string, timeoutMs int) s
 	_ = cmd.Run()
 	ms := time.Since(t0).Milliseconds()
 	s := out.String()
-	first := strings.TrimSpace(strings.SplitN(s, "\n", 2)[0])
+	first := ""
+	for _, line := range strings.Split(s, "\n") {
+		// z3 prints warnings (a pattern it cannot use is ignored, not an error) before the verdict
+		if t := strings.TrimSpace(line); t != "" && !strings.HasPrefix(t, "WARNING") {
+			first = t
+			break
+		}
+	}
 	r := solveResult{backend: sp.name, ms: ms, out: s}
 	switch first {
 	case "unsat", "sat", "unknown":
